@@ -53,6 +53,9 @@ def run(ctx, rep, tier):
     # the reduced problem the verdict is computed on is the user's problem only if presolve removes nothing but +infinity rows (C09.R2 re-run)
     from . import c09
     c09.drop_condition(c04._Ren(rep, 'C09.R2', 'C01.R14'), ctx.facts('default'), '')
+    # the certified point lies in K x K* only if the line searches test membership of the right sets (C14.R14 re-run)
+    from . import c14
+    c14.membership_definitions(c04._Ren(rep, 'C14.R14', 'C01.R15'), ctx.facts('default'), ctx.eff('default'), '')
 
 
 class _Renamed:
